@@ -884,7 +884,8 @@ def chunk_region(stmts, chunk_body, what='__Pyx_BufFmt_ProcessTypeChunk'):
 
 def chunk_table(chunk_body, letters_t, letters_g):
     """Decision table of the dtype-vs-format comparison in ProcessTypeChunk.
-    -> rows {(T, G, size_equal, has_fields): outcome} with outcome in accept / reject / descend."""
+    -> rows {(T, G, size relation, has_fields): outcome} with outcome in accept / reject / descend; the size relation of the declared type to the format item is
+    True (equal) / 'larger' / 'smaller' (both directions: an ordering test in place of the equality must not hide)."""
     what = '__Pyx_BufFmt_ProcessTypeChunk'
     stmts = P.parse_body(chunk_body)
     span, size_var, group_var, bases, local = chunk_region(stmts, chunk_body, what)
@@ -892,10 +893,13 @@ def chunk_table(chunk_body, letters_t, letters_g):
     for s in P.walk(span):
         if s.kind in ('if', 'while', 'do', 'switch'):
             ids |= _cond_ids(s.text, what)
+        elif s.kind == 'simple':
+            # the declared side may also be read into a local first
+            ids |= {re.sub(r'\s+', '', m.group(0)) for m in re.finditer(r'[A-Za-z_]\w*(?:\s*->\s*\w+)+', s.text)}
     rows = {}
     for T in letters_t:
         for G in letters_g:
-            for same in (True, False):
+            for same in (True, 'larger', 'smaller'):
                 for fields in (True, False):
                     ex = P.Explorer(span, consts={'NULL': 0})
                     st = P.PState()
@@ -905,7 +909,7 @@ def chunk_table(chunk_body, letters_t, letters_g):
                     for i in ids:
                         m = re.fullmatch(r'(.+)->(size|typegroup|fields)', i)
                         if m and m.group(1) in bases:
-                            st.env[i] = ('const', {'size': 4 if same else 8, 'typegroup': ord(T), 'fields': 1 if fields else 0}[m.group(2)])
+                            st.env[i] = ('const', {'size': {True: 4, 'larger': 8, 'smaller': 2}[same], 'typegroup': ord(T), 'fields': 1 if fields else 0}[m.group(2)])
                     try:
                         res = ex.stmts(span, st)
                     except P.Unmodelled as e:
@@ -931,7 +935,8 @@ def chunk_problems(rows, char_letter='H', complex_letter='C'):
     """reference (the property): a format item is compatible when its size and its type group equal those of the declared field; the char group may pair with
     any group of equal size (chars do not care about sign); a mismatch is an error, or -- for a complex-typed struct only -- a descent into the struct's fields."""
     out = {}
-    for (T, G, same, fields), o in sorted(rows.items()):
+    for (T, G, rel, fields), o in sorted(rows.items(), key=lambda kv: tuple(map(str, kv[0]))):
+        same = rel is True
         compatible = same and T == G
         charpair = same and T != G and char_letter in (T, G)
         if compatible and o != 'accept':
@@ -946,17 +951,23 @@ def chunk_problems(rows, char_letter='H', complex_letter='C'):
 
 
 def rule_chunk(ctx, func, produced, returned):
-    r = Rule('C17-CHUNK', 'decision table of the dtype-vs-format comparison of __Pyx_BufFmt_ProcessTypeChunk over (declared type group) x (format type group) x (sizes equal?) x (struct fields?): '
-             'equal size and group is accepted, any other pairing except the equal-size char exemption is rejected or (complex struct) descended into', floor=165)
+    r = Rule('C17-CHUNK', 'decision table of the dtype-vs-format comparison of __Pyx_BufFmt_ProcessTypeChunk over (declared type group) x (format type group) x (declared size equal / larger / smaller) x (struct fields?): '
+             'equal size and group is accepted, any other pairing except the equal-size char exemption is rejected or (complex struct) descended into', floor=250)
     pc = func(ctx, '__Pyx_BufFmt_ProcessTypeChunk')
     rows = chunk_table(pc.body, sorted(produced), sorted(returned))
     for k, o in rows.items():
-        r.inst('chunk:%s:%s:%s:%s' % k, sample="declared '%s' vs format '%s', sizes %s, fields %s -> %s" % (k[0], k[1], 'equal' if k[2] else 'differ', 'present' if k[3] else 'NULL', o))
+        r.inst('chunk:%s:%s:%s:%s' % k, sample="declared '%s' vs format '%s', declared size %s, fields %s -> %s" % (k[0], k[1], 'equal' if k[2] is True else k[2], 'present' if k[3] else 'NULL', o))
     for k, msg in chunk_problems(rows):
         r.violate('__Pyx_BufFmt_ProcessTypeChunk:compare:%s' % k, BUFFER_C, pc.line, msg)
     pcrows = chunk_table("{ size = __Pyx_BufFmt_TypeCharToNativeSize(c, z); group = __Pyx_BufFmt_TypeCharToGroup(c, z); "
                          "if (type->size != size && type->typegroup != group) { if (type->typegroup == 'C' && type->fields != NULL) { continue; } return -1; } }", 'CI', 'IR')
-    r.positive_control({k for k, _ in chunk_problems(pcrows)} >= {'mismatch-accepted:group', 'mismatch-accepted:size'}, '&& instead of || accepts one-sided mismatches')
+    # the same comparison with the char exemption hoisted in front of it (and its size condition lost on the way): only visible when the region is found by def-use
+    pcrows2 = chunk_table("{ size = __Pyx_BufFmt_TypeCharToNativeSize(c, z); group = __Pyx_BufFmt_TypeCharToGroup(c, z); "
+                          "if (type->typegroup == 'H' || group == 'H') { } else if (type->size != size || type->typegroup != group) { "
+                          "if (type->typegroup == 'C' && type->fields != NULL) { continue; } return -1; } }", 'HI', 'HI')
+    r.positive_control({k for k, _ in chunk_problems(pcrows)} >= {'mismatch-accepted:group', 'mismatch-accepted:size'} and
+                       {k for k, _ in chunk_problems(pcrows2)} >= {'mismatch-accepted:both', 'mismatch-accepted:size'},
+                       '&& instead of || accepts one-sided mismatches; a char exemption hoisted in front of the comparison without its size test accepts any size')
     return r
 
 
@@ -2943,3 +2954,133 @@ def rule_pool(ctx, func):
                              "CYTHON_FALLTHROUGH; case 's': if (flush(c) == -1) return 0; c->n = c->m; c->mode = c->newmode; c->t = *p; ++p; break; default: return 0; } } }")
     r.positive_control(pn == 2 and [f for f, _ in pbad] == ['mode'], 'pooling without comparing the pack mode')
     return r
+
+
+# ---------------------------------------------------------------------------------------------------------------- C17-CMPTAB / C17-CMPDIM (round 5)
+# __pyx_typeinfo_cmp(a, b) == 1 lets a Cython memoryview object be re-acquired as dtype `a` WITHOUT the format check.  It is the second place that
+# knows the "chars don't care about sign" exemption of __Pyx_BufFmt_ProcessTypeChunk, and the same obligations hold: the whole function is explored
+# (checker's own path explorer, members of the two descriptors bound by role) for every point of
+#     (type group of a) x (type group of b) x (size of a equal / larger / smaller) x (signedness of plain char on the platform) x dimensionality
+# and the verdict is compared with: equal  <=>  same size, same array dimensionality, and same type group or a char on either side.
+def _cmp_members(params, stmts, what):
+    ids = set()
+    for s in P.walk(stmts):
+        ids |= {re.sub(r'\s+', '', m.group(0)) for m in re.finditer(r'\b(?:%s)\s*->\s*\w+' % '|'.join(map(re.escape, params)), s.text)}
+    return ids
+
+
+def cmp_table(body, params, letters, dims, char_letter='H', unsigned_letter='U', struct_letter='S'):
+    """-> rows {(Ta, Tb, size relation, char signedness, dims): verdict}; verdict: 1 / 0 / 'arrays' (the verdict is left to the comparison of the array extents)"""
+    what = '__pyx_typeinfo_cmp'
+    a, b = params
+    stmts = P.parse_body(body)
+    members = _cmp_members(params, stmts, what)
+    known = {'size', 'typegroup', 'is_unsigned', 'ndim', 'flags', 'fields', 'arraysize'}
+    for m in sorted(members):
+        if m.split('->')[1] not in known:
+            raise AnalysisError('%s reads %s, which the decision table does not model' % (what, m))
+    rows = {}
+    for Ta in letters:
+        for Tb in letters:
+            for rel in (True, 'larger', 'smaller'):
+                for char_unsigned in ((0, 1) if char_letter in (Ta, Tb) else (0,)):
+                    for dim in dims:
+                        st = P.PState()
+                        st.env[a], st.env[b] = ('const', 1), ('const', 2)          # two distinct non-NULL descriptors
+                        na, nb = {'scalar': (0, 0), 'a-array': (1, 0), 'b-array': (0, 1), 'arrays': (1, 1)}[dim]
+                        for p, T, size, nd in ((a, Ta, {True: 4, 'larger': 8, 'smaller': 2}[rel], na), (b, Tb, 4, nb)):
+                            st.env['%s->size' % p] = ('const', size)
+                            st.env['%s->typegroup' % p] = ('const', ord(T))
+                            st.env['%s->is_unsigned' % p] = ('const', 1 if T == unsigned_letter else char_unsigned if T == char_letter else 0)
+                            st.env['%s->ndim' % p] = ('const', nd)
+                            st.env['%s->flags' % p] = ('const', 0)
+                            st.env['%s->fields' % p] = ('const', 0)                  # leaf descriptors; struct members are walked by C17-CMP
+                        ex = P.Explorer(stmts, consts={'NULL': 0})
+                        try:
+                            res = ex.function(st)
+                        except P.Unmodelled as e:
+                            raise AnalysisError('%s: %s' % (what, e))
+                        verdicts = set()
+                        for s1, exit_ in res:
+                            facts = [t for t, _, _ in s1.facts if not t.startswith('switch(')]
+                            if any('arraysize' in t for t in facts) and all('arraysize' in t for t in facts):
+                                verdicts.add('arrays')
+                                continue
+                            if exit_[0] != 'return':
+                                raise AnalysisError('%s: a path ends without a return' % what)
+                            try:
+                                v = ex.const_of(P._parse(exit_[1]), s1)
+                            except cexpr.ParseError:
+                                v = None
+                            if v is None or facts:
+                                if dim == 'arrays':
+                                    continue        # the zero-iteration abstraction of the extent loop
+                                raise AnalysisError('%s: for groups %s / %s the verdict `return %s` depends on %s, not decidable from the modelled members'
+                                                    % (what, Ta, Tb, exit_[1], ', '.join(facts[:2]) or 'its operands'))
+                            verdicts.add(1 if v else 0)
+                        if 'arrays' in verdicts:
+                            verdicts = {'arrays'}
+                        if len(verdicts) != 1:
+                            raise AnalysisError('%s: verdict not deterministic for groups %s / %s (%s)' % (what, Ta, Tb, sorted(map(str, verdicts))))
+                        rows[(Ta, Tb, rel, char_unsigned, dim)] = verdicts.pop()
+    return rows
+
+
+def cmp_table_problems(rows, char_letter='H'):
+    out = {}
+    for (Ta, Tb, rel, cu, dim), v in sorted(rows.items(), key=lambda kv: tuple(map(str, kv[0]))):
+        scalars_equal = rel is True and (Ta == Tb or char_letter in (Ta, Tb))
+        pair = "'%s' and '%s'" % (Ta, Tb)
+        if dim == 'scalar':
+            if scalars_equal and v != 1:
+                out.setdefault('equal-unequal', 'two descriptors of type groups %s with the same size compare UNEQUAL: the shortcut is lost (harmless) -- but for identical groups a view can no longer be '
+                               're-acquired as its own dtype through this path' % pair)
+            if not scalars_equal and v != 0:
+                kind = 'size' if (Ta == Tb or char_letter in (Ta, Tb)) else 'group' if rel is True else 'both'
+                out.setdefault('mismatch-equal:%s' % kind,
+                               'descriptors of type groups %s%s compare EQUAL: a Cython memoryview of one dtype is accepted as the other without any format check and its bytes are re-interpreted'
+                               % (pair, '' if rel is True else ' and different sizes'))
+        elif dim in ('a-array', 'b-array'):
+            if v != 0:
+                out.setdefault('dimension-ignored', 'an array member and a scalar member (type groups %s, same item size) compare EQUAL: `char c[2]` is taken for `char c`; a struct view is accepted as '
+                               'another struct dtype without any format check' % pair)
+        else:
+            if scalars_equal and v != 'arrays':
+                out.setdefault('extents-skipped', 'for two array members of type groups %s the verdict (%s) is reached without comparing the array extents: `char c[2]` equals `unsigned char c[3]`' % (pair, v))
+            if not scalars_equal and v not in (0, 'arrays'):
+                out.setdefault('mismatch-equal:arrays', 'array members of type groups %s with different item descriptors compare EQUAL' % pair)
+    return sorted(out.items())
+
+
+_CMP_PC = ("{ if (!a || !b) return 0; if (a == b) return 1; if (a->typegroup == 'H' || b->typegroup == 'H') return 1; "
+           "if (a->size != b->size || a->typegroup != b->typegroup || a->is_unsigned != b->is_unsigned || a->ndim != b->ndim) return 0; "
+           "if (a->ndim) { for (i = 0; i < a->ndim; i++) if (a->arraysize[i] != b->arraysize[i]) return 0; } return 1; }")
+
+
+def _rule_cmptab(ctx, func, produced, rid, dims, floor, desc):
+    r = Rule(rid, desc, floor=floor)
+    d = func(ctx, '__pyx_typeinfo_cmp')
+    params = [n for n, t in zip(d.param_names(), d.param_types()) if '__Pyx_TypeInfo' in t]
+    if len(params) != 2:
+        raise AnalysisError('__pyx_typeinfo_cmp: expected two __Pyx_TypeInfo parameters')
+    letters = sorted(produced)
+    rows = cmp_table(d.body, params, letters, dims)
+    for k, v in rows.items():
+        r.inst('cmp:%s:%s:%s:%s:%s' % k, sample="a '%s' vs b '%s', size of a %s, plain char %s, %s -> %s" % (k[0], k[1], 'equal' if k[2] is True else k[2], 'unsigned' if k[3] else 'signed', k[4], v))
+    for k, msg in cmp_table_problems(rows):
+        r.violate('__pyx_typeinfo_cmp:table:%s' % k, BUFFER_C, d.line, '__pyx_typeinfo_cmp: ' + msg)
+    pc = {k for k, _ in cmp_table_problems(cmp_table(_CMP_PC, ('a', 'b'), 'HIU', ('scalar', 'a-array', 'arrays')))}
+    r.positive_control(pc >= {'mismatch-equal:size', 'dimension-ignored', 'extents-skipped'}, 'a char exemption that returns "equal" without looking at size, dimensionality or extents')
+    return r
+
+
+def rule_cmptab(ctx, func, produced):
+    return _rule_cmptab(ctx, func, produced, 'C17-CMPTAB', ('scalar',), 150,
+                        'decision table of the dtype-equality shortcut __pyx_typeinfo_cmp over (type group of a) x (type group of b) x (size equal / larger / smaller) x (signedness of plain char) '
+                        'for scalar descriptors: equal exactly for the same size with the same type group or a char on either side (the exemption of the format checker, with its size test)')
+
+
+def rule_cmpdim(ctx, func, produced):
+    return _rule_cmptab(ctx, func, produced, 'C17-CMPDIM', ('a-array', 'b-array', 'arrays'), 450,
+                        'the same decision table of __pyx_typeinfo_cmp for array members: an array never equals a scalar, and two arrays are only equal after their extents were compared '
+                        '-- also under the char exemption')
